@@ -5,6 +5,7 @@
 import Pulsar.Syntax
 import Pulsar.Typing
 import Pulsar.ReflectSyntax
+import Pulsar.RapidSyntax
 import Pulsar.Timepb
 import Pulsar.Anyutil
 import Pulsar.Gen
@@ -109,6 +110,11 @@ def step (st : St) (line : String) : St × String :=
     (match st.get? sid, i.toNat? with
      | some S, some i => (st, cmdRrefl S i rest)
      | _, _ => (st, "bad-op"))
+  | "rgen" :: sid :: i :: rest =>           -- rapidproto generation replayed from draws (RAPID_PROTOCOL.md)
+    (match st.get? sid, i.toNat? with
+     | some S, some i => (st, cmdRgen S i rest)
+     | _, _ => (st, "bad-op"))
+  | "rwkt" :: rest => (st, cmdRwkt rest)     -- well-known-type generators
   | ["anyunpack", urlhex, tans, fans, dec] =>
     -- urlhex: x<hex of url>; tans/fans: m:<hex name> | n | nf | oe ; dec: ok | err | panic
     let str (h : String) : Option String := (bytesOfHex (h.drop 1).toString).map (fun b => String.ofList (b.map (fun c => Char.ofNat c.toNat)))
